@@ -53,6 +53,7 @@ import (
 	"os"
 	"path/filepath"
 	"sort"
+	"strconv"
 	"strings"
 )
 
@@ -126,7 +127,7 @@ func (im *mrImporter) check(path string) (*types.Package, error) {
 		}
 		files = append(files, f)
 	}
-	info := &types.Info{Types: map[ast.Expr]types.TypeAndValue{}, Uses: map[*ast.Ident]types.Object{}, Defs: map[*ast.Ident]types.Object{}}
+	info := &types.Info{Types: map[ast.Expr]types.TypeAndValue{}, Uses: map[*ast.Ident]types.Object{}, Defs: map[*ast.Ident]types.Object{}, Selections: map[*ast.SelectorExpr]*types.Selection{}}
 	conf := types.Config{Importer: im, Error: func(error) {}, FakeImportC: true}
 	pkg, _ := conf.Check(path, im.fset, files, info)
 	if pkg == nil {
@@ -256,10 +257,31 @@ func mrCollect(repo string) ([]mrSite, error) {
 				continue
 			}
 			sites = append(sites, mrScanFile(fset, info, rel, fname, f)...)
+			mrUnsupported = append(mrUnsupported, mrUnsupportedForms(rel, fname, f)...)
 		}
 	}
 	sort.Slice(sites, func(i, j int) bool { return sites[i].Id < sites[j].Id })
+	sort.Strings(mrUnsupported)
 	return sites, nil
+}
+
+// forms of map iteration the scanner does NOT follow; their presence must be reviewed by hand
+// (obligation no_unsupported_iteration_form): a DOT-import of a package whose functions walk
+// maps (the calls then are bare identifiers), and files excluded from this platform's build.
+var mrUnsupported []string
+
+func mrUnsupportedForms(rel, fname string, f *ast.File) []string {
+	var out []string
+	for _, im := range f.Imports {
+		if im.Name != nil && im.Name.Name == "." {
+			p, _ := strconv.Unquote(im.Path.Value)
+			switch p {
+			case "maps", "slices", "golang.org/x/exp/maps", "golang.org/x/exp/slices", "reflect", "sync", "iter":
+				out = append(out, rel+"/"+fname+": dot-import of "+p)
+			}
+		}
+	}
+	return out
 }
 
 // every map-iteration site of one file
@@ -352,6 +374,45 @@ func mrQualifiedCallee(info *types.Info, imports map[string]string, call *ast.Ca
 		return "", ""
 	}
 	return mrPkgPath(info, imports, id), sel.Sel.Name
+}
+
+// mrCore: the type that decides what `range x` walks.  For a TYPE PARAMETER the underlying
+// type is its constraint interface; the core type is what the terms of the constraint share:
+// when every term (or, conservatively, ANY term) is a map the operand is a map.
+func mrCore(t types.Type) types.Type {
+	tp, ok := t.(*types.TypeParam)
+	if !ok {
+		return t.Underlying()
+	}
+	iface, ok := tp.Constraint().Underlying().(*types.Interface)
+	if !ok {
+		return t.Underlying()
+	}
+	var found types.Type
+	var walk func(t types.Type)
+	walk = func(t types.Type) {
+		switch x := t.(type) {
+		case *types.Union:
+			for i := 0; i < x.Len(); i++ {
+				walk(x.Term(i).Type())
+			}
+		default:
+			if in, ok := x.Underlying().(*types.Interface); ok {
+				for i := 0; i < in.NumEmbeddeds(); i++ {
+					walk(in.EmbeddedType(i))
+				}
+			} else if m, ok := x.Underlying().(*types.Map); ok && found == nil {
+				found = m
+			}
+		}
+	}
+	for i := 0; i < iface.NumEmbeddeds(); i++ {
+		walk(iface.EmbeddedType(i))
+	}
+	if found != nil {
+		return found
+	}
+	return t.Underlying()
 }
 
 func mrNamedType(t types.Type) string {
@@ -519,7 +580,7 @@ func mrScanBody(fset *token.FileSet, info *types.Info, imports map[string]string
 			tv, ok := info.Types[x.X]
 			var under types.Type
 			if ok && tv.Type != nil && tv.Type != types.Typ[types.Invalid] {
-				under = tv.Type.Underlying()
+				under = mrCore(tv.Type)
 			}
 			switch under.(type) {
 			case *types.Map:
@@ -596,7 +657,18 @@ func mrScanBody(fset *token.FileSet, info *types.Info, imports map[string]string
 				stmt := enclosingStmt()
 				add(form, mrExprString(fset, outer), autoOf(form, chain, outer, stmt), stmt, x.Pos())
 			case "Range":
+				isSyncMap := false
 				if tv, ok := info.Types[sel.X]; ok && tv.Type != nil && mrNamedType(tv.Type) == "sync.Map" {
+					isSyncMap = true
+				} else if s, ok := info.Selections[sel]; ok && s != nil {
+					// a method promoted from an embedded sync.Map
+					if fn, ok := s.Obj().(*types.Func); ok {
+						if sig, ok := fn.Type().(*types.Signature); ok && sig.Recv() != nil && mrNamedType(sig.Recv().Type()) == "sync.Map" {
+							isSyncMap = true
+						}
+					}
+				}
+				if isSyncMap {
 					claimed[x] = true
 					add("sync.Map.Range", mrExprString(fset, x.Fun), "other", enclosingStmt(), x.Pos())
 				}
@@ -628,6 +700,10 @@ func mrScanBody(fset *token.FileSet, info *types.Info, imports map[string]string
 		if !ok || tv.Type == nil || tv.Type == types.Typ[types.Invalid] {
 			if _, isLit := opnd.(*ast.BasicLit); !isLit {
 				form = "range-untyped"
+			}
+		} else if _, isTP := tv.Type.(*types.TypeParam); isTP {
+			if _, isMap := mrCore(tv.Type).(*types.Map); !isMap {
+				form = "range-untyped" // a type parameter whose constraint does not pin a map: reviewed by hand
 			}
 		} else if _, isFunc := tv.Type.Underlying().(*types.Signature); isFunc {
 			form = "range-func"
@@ -752,6 +828,18 @@ func (t T) Keys() iter.Seq[string] { return maps.Keys(t.m) }
 
 var pkgLevel = func(m map[string]int) []string { return slices.Collect(maps.Keys(m)) }
 
+type wrapsSync struct{ sync.Map }
+
+func generic[M ~map[string]int](m M) {
+	for k := range m {
+		_ = k
+	}
+}
+
+func anyParam[A any](a A, w *wrapsSync) {
+	w.Range(func(k, v any) bool { return true })
+}
+
 func f(m map[string]int, v reflect.Value, sm *sync.Map, t T) {
 	a := slices.Collect(maps.Keys(m))
 	b := slices.Sorted(maps.Keys(m))
@@ -803,7 +891,7 @@ func mrSelfTest() ([]string, error) {
 		if mode == "typed" {
 			imp = importer.ForCompiler(fset, "source", nil)
 		}
-		info := &types.Info{Types: map[ast.Expr]types.TypeAndValue{}, Uses: map[*ast.Ident]types.Object{}, Defs: map[*ast.Ident]types.Object{}}
+		info := &types.Info{Types: map[ast.Expr]types.TypeAndValue{}, Uses: map[*ast.Ident]types.Object{}, Defs: map[*ast.Ident]types.Object{}, Selections: map[*ast.SelectorExpr]*types.Selection{}}
 		conf := types.Config{Importer: imp, Error: func(error) {}}
 		conf.Check("sample", fset, []*ast.File{f}, info)
 		sites := mrScanFile(fset, info, "x/sample", "sample.go", f)
@@ -850,6 +938,19 @@ func init() {
 				return "", nil, mrCache.err
 			}
 			return leanStrList(mrCache.selfTest), mrCache.selfTest, nil
+		},
+	})
+	addFact(fact{
+		name: "c10UnsupportedForms", leanTy: "List String", deflt: "[\"not extracted\"]",
+		extract: func(repo string) (string, interface{}, error) {
+			mrRun(repo)
+			if mrCache.err != nil {
+				return "", nil, mrCache.err
+			}
+			if mrUnsupported == nil {
+				mrUnsupported = []string{}
+			}
+			return leanStrList(mrUnsupported), mrUnsupported, nil
 		},
 	})
 	addFact(fact{
